@@ -69,6 +69,7 @@ type World struct {
 	Handles []*url.SearchParams
 	Panic   string // set if an operation panicked
 	Dead    bool   // resolve failed: history ends here
+	lazyM   func() *model.URL
 }
 
 func NewWorld(start string) *World {
